@@ -303,6 +303,9 @@ class World:
                 ][variant % 4]
         bounds: list[int] = []
         plain = _ipc(schema, cols, md, bounds)
+        # the writer may not have flushed the schema message when bounds[0] was taken: read its end off the bytes
+        # (8-byte prefix + padded flatbuffer length; a schema message has no body)
+        bounds[0] = 8 + int.from_bytes(plain[4:8], "little")
         if body == "corrupt":
             v = variant % 4
             if v == 0:
@@ -331,8 +334,10 @@ class World:
                 pass
             plain = sink.getvalue()
         elif body == "truncated":
-            v = variant % 4  # inside the schema message | exactly after it | inside the batch message | inside the first prefix
-            cut = [bounds[0] // 2, bounds[0], (bounds[0] + bounds[1]) // 2, 6][v]
+            # inside the schema message | inside the batch message's length prefix | inside the batch message | inside the
+            # first prefix   (a cut exactly after the schema message is the class no_batch: pyarrow sees a clean end of stream)
+            v = variant % 4
+            cut = [bounds[0] // 2, bounds[0] + 4, (bounds[0] + bounds[1]) // 2, 6][v]
             plain = plain[:cut]
         elif body == "empty":
             plain = b""
